@@ -41,7 +41,7 @@ type runner struct {
 	r *vlib.Run
 }
 
-const rule = "distinct_nontrivial = distinct (topology kind, variant, size, signedness, TC-all, qname-min level, restart parameters, firewall mode, outbound budget, fallback pool configured + budget the stack was built to cross) tuples for which at least one client query caused upstream packets at the scripted servers; evaluations = client replies judged + off/shadow pairs compared (without and with a fallback pool) + over-budget replies and follow-ups judged + enforce replies of the fallback-pool stacks judged + DNSSEC work-API cases judged"
+const rule = "distinct_nontrivial = distinct (topology kind, variant, size, signedness, TC-all, qname-min level, restart parameters, firewall mode, outbound budget, fallback pool configured + budget the stack was built to cross) tuples for which at least one client query caused upstream packets at the scripted servers; evaluations = client replies judged + off/shadow pairs compared (without and with a fallback pool) + over-budget replies and follow-ups judged + enforce replies of the fallback-pool stacks judged + DNSSEC work-API cases judged + ledger-race runs judged + sibling-validation runs judged"
 
 func main() {
 	r := vlib.Start("C12", "exploration")
@@ -59,6 +59,8 @@ func main() {
 	r.Assume("fallback-pool stacks run with prefetch off: an entry the cache learns from the pool is prefetch-due at once, every hit on it (also by an internal sub-query of a later request tree) queues a refresh, and a refresh is a request tree of its own with a budget of its own whose packets the packet log cannot tell from the client's tree; on every second topology the client queries of the pool stacks enter as raw packets (Server.ServeRaw on a transport job: the wire-born request path)")
 	r.Assume("fallback-pool stacks run with ipv6access off: there is no optional (best-effort) work, every budget crossing a tree records in enforce mode is a refused REQUIRED debit; a tree that recorded a crossed non-outbound budget (internal queries, a DNSSEC operation: only the synchronous resolution debits those) and is answered anything but SERVFAIL after the pool was asked the client's own question is reported (confirmed on a second fresh stack). A crossing of only the outbound budget is not judged this way (the refused debit may belong to a retry of an attempt that was still in flight when the pool answered); a pool attempt made although the outbound budget was spent shows as budget + 1 packets")
 	r.Assume("fallback-pool stacks: the non-outbound budget of enforce+pool/<dimension> is the value under which the shadow+pool tree of the same topology recorded that dimension as crossed (all other budgets default); the outbound budget of enforce+pool/outbound is a small draw or is placed at the hand-over observed on off+pool (packets logged before the pool was first asked the client's question: exactly that many, or one more). The verdicts applied are the per-query ones")
+	r.Assume("ledger race (concurrent.go): one real RecursionWorkLedger per run is debited by goroutines released together from a spin barrier through middleware.DebitRecursionWork on a context carrying the ledger (optional branches: WithBestEffortRecursionWork), as the resolver, the queryer and the detached IPv6 jobs do; 'accepted' is a nil return; whether debitors overlapped in time is measured with monotonic timestamps and required by the coverage counters")
+	r.Assume("sibling validations (concurrent.go): the validations of one request tree share one context (ledger, NSEC3 hash memo pinned by dnssec.EnsureNSEC3HashMemo) and the work governor the resolver itself constructs (hook VerifC12DNSSECWork: dnssecWorkBudget with a real dnssec.CryptoLimiter); 'other request trees occupy the crypto slots' is the harness holding the limiter's tokens (TryAcquire), 'the request is cancelled' is cancelling that context; a tree is judged stuck only from stop-the-world goroutine snapshots in which every validation that has not returned is parked in a wait only another goroutine can end, with the gate free and the context, ledger, memo and gate reachable by no other goroutine — never from elapsed time")
 	run := &runner{r: r}
 
 	if raw := r.ReplayCase(); raw != nil {
@@ -72,6 +74,17 @@ func main() {
 		debug = true
 		if c.Topology != nil && c.Topology.Kind == "dnssec-work-api" {
 			run.workAPI(c.Index, c.Index+1)
+		} else if c.Topology != nil && c.Topology.Kind == "ledger-race" {
+			// the case is the generated one; the schedule is not: repeat it
+			for k := 0; k < 200 && r.Violations() == 0; k++ {
+				run.ledgerRace(c.Index, c.Index+1)
+			}
+		} else if c.Topology != nil && c.Topology.Kind == "sibling-validations" {
+			for k := 0; k < 50 && r.Violations() == 0; k++ {
+				run.siblings(c.Index, c.Index+1)
+			}
+		} else if c.Topology != nil && c.Topology.Kind == "v6-burst" {
+			run.v6burst(c.Index - v6BurstBase)
 		} else {
 			run.topology(c.Index)
 		}
@@ -81,7 +94,21 @@ func main() {
 
 	nTopo := r.N(8*len(kinds), 160*len(kinds))
 	nWork := r.N(600, 20000)
+	nLedger := r.N(1200, 40000)
+	nSib := r.N(240, 6000)
 
+	nBurst := r.N(3, 36)
+	if b := os.Getenv("C12_V6BURST"); b != "" {
+		// child: v6-burst worlds lo, lo+step, ... < hi
+		var lo, hi, step int
+		fmt.Sscanf(b, "%d:%d:%d", &lo, &hi, &step)
+		for i := lo; i < hi; i += step {
+			run.v6burst(i)
+			r.Progress("v6-burst world %d done", i)
+		}
+		r.Finish(rule)
+		return
+	}
 	if b := os.Getenv("C12_BATCH"); b != "" {
 		// child: topologies lo, lo+step, ... < hi
 		var lo, hi, step int
@@ -112,6 +139,21 @@ func main() {
 	// DNSSEC operation budgets at the dnssec API (in-process, no pipeline)
 	run.workAPI(0, nWork)
 
+	// concurrent debits against one real request-tree ledger, and concurrent
+	// validations of one request tree (real governor, gate and hash memo) under
+	// budget / saturation / cancellation faults (concurrent.go); in-process,
+	// before the pipelines load the machine
+	if os.Getenv("C12_SKIP_CONCURRENT") == "" {
+		run.ledgerRace(0, nLedger)
+		r.Progress("ledger race done")
+		run.siblings(0, nSib)
+		r.Progress("sibling validations done")
+	}
+	if os.Getenv("C12_ONLY_CONCURRENT") != "" {
+		r.Finish(rule)
+		return
+	}
+
 	// parent: striped batches in parallel child processes (one live pipeline
 	// per process; most of a case's wall time is sdns's fixed 2 s pause before
 	// detached IPv6 enrichment, not CPU)
@@ -134,8 +176,26 @@ func main() {
 			}
 		}(k)
 	}
+	// detached IPv6 jobs of one tree debiting concurrently at the cap
+	// (v6burst.go), next to the stripes
+	burstWorkers := 3
+	for k := 0; k < burstWorkers; k++ {
+		wg.Add(1)
+		go func(k int) {
+			defer wg.Done()
+			res := r.Child(fmt.Sprintf("v6burst-%d", k), nil, vlib.BinPath("c12", ""), nil,
+				[]string{fmt.Sprintf("C12_V6BURST=%d:%d:%d", k, nBurst, burstWorkers)}, 40*time.Minute)
+			if !res.HasState {
+				r.Inconclusive(fmt.Sprintf("v6-burst child %d ended without state (exit %d, timed out %v, log %s)", k, res.ExitCode, res.TimedOut, res.Output))
+			}
+		}(k)
+	}
 	wg.Wait()
 
+	r.Require("v6burst/worlds", int64(nBurst))
+	r.Require("v6burst/off_trees_with_detached_packets_after_reply", int64(nBurst*2/3))
+	r.Require("v6burst/enforce_stacks", int64(nBurst))
+	r.Require("v6burst/enforce_trees_cap_reached_by_detached_jobs_after_reply", int64(max(1, nBurst/2)))
 	r.Require("topologies", int64(nTopo))
 	for _, k := range kinds {
 		r.Require("kind/"+k, int64(nTopo/len(kinds)))
@@ -151,6 +211,7 @@ func main() {
 	r.Require("terminated_in_time", int64(nTopo*8))
 	r.Require("enforce_queries_counted", int64(nTopo*4))
 	r.Require("enforce_queries_with_upstream_packets", int64(nTopo*3))
+	r.Require("enforce_trees_ledger_outbound_count_judged", int64(nTopo*3))
 	r.Require("enforce_budget_fully_spent", int64(nTopo/3))
 	r.Require("enforce_budget_crossed_runs", int64(nTopo))
 	r.Require("over_budget_servfails", int64(nTopo/2))
@@ -209,6 +270,28 @@ func main() {
 	r.Require("pool/off_shadow_pairs_compared_with_shadow_crossing", int64(nTopo/3))
 	r.Require("pool/off_shadow_pairs_compared_with_pool_engaged", int64(max(3, nTopo/24)))
 	r.Require("pool/off_shadow_pairs_compared_with_pool_engaged_and_shadow_crossing", int64(max(3, nTopo/32)))
+	// concurrency at the cap boundary and inside one request tree (concurrent.go)
+	r.Require("ledger_race/cases", int64(nLedger))
+	r.Require("ledger_race/runs", int64(nLedger*4))
+	r.Require("ledger_race/runs/shadow", int64(nLedger/4))
+	r.Require("ledger_race/runs_with_debitors_overlapping_in_time", int64(nLedger*2))
+	r.Require("ledger_race/enforce_runs_cap_reached_debitors_overlapping", int64(nLedger))
+	r.Require("ledger_race/enforce_runs_cap_reached_debitors_overlapping/besteffort-only", int64(nLedger/6))
+	r.Require("ledger_race/enforce_runs_cap_reached_debitors_overlapping/mixed", int64(nLedger/6))
+	r.Require("ledger_race/enforce_runs_cap_reached_debitors_overlapping/required-only", int64(nLedger/12))
+	r.Require("ledger_race/refusals_observed", int64(nLedger))
+	r.Require("sibling/cases", int64(nSib))
+	r.Require("sibling/runs", int64(nSib*2))
+	r.Require("sibling/runs_terminated", int64(nSib))
+	r.Require("sibling/runs/race", int64(nSib))
+	r.Require("sibling/runs/saturate-cancel", int64(nSib/6))
+	r.Require("sibling/runs/saturate-release", int64(nSib/12))
+	r.Require("sibling/runs_with_validations_parked_on_a_siblings_inflight_hash", int64(nSib/12))
+	r.Require("sibling/runs_producer_refused_while_siblings_parked_on_it", int64(nSib/16))
+	r.Require("sibling/runs_with_validations_parked_on_the_crypto_gate", int64(nSib/8))
+	r.Require("sibling/enforce_race_runs_with_budget_refusals", int64(nSib/2))
+	r.Require("sibling/enforce_runs_budget_fully_spent", int64(nSib/2))
+	r.Require("sibling/runs_compared_with_unlimited_validation", int64(nSib/3))
 	r.Require("workapi_cases", int64(nWork))
 	r.Require("workapi_cases_with_expensive_ops", int64(nWork/2))
 	r.Require("workapi_refusals_observed", int64(nWork/4))
